@@ -148,5 +148,8 @@ fn main() {
             2
         }
     };
+    if args.get(1).map(|s| s.as_str()) != Some("worker") {
+        exec::cleanup_process_scratch();
+    }
     std::process::exit(code);
 }
